@@ -144,6 +144,11 @@ def run(ctx):
         jobs["emit"] = pool.submit(ctx.tlc, "ChattyMC", "Chatty_emitq.cfg" if quick else "Chatty_emit.cfg", timeout=2400, workers=6,
                                    defines=dict(byz, MaxUpdates=3, MaxGap=2, MaxEvents=3) if quick
                                    else dict(byz, MaxUpdates=4, MaxGap=3, MaxEvents=3))   # = every behaviour with <=3 events
+        # the same export from the restart initial states (a Committing view exists from the first update on): reaches
+        # updates that carry a Committing view together with a NilVotedRound within the event bound
+        jobs["emitrst"] = pool.submit(ctx.tlc, "ChattyMC", "Chatty_emitq.cfg", timeout=2400, workers=4,
+                                      defines=dict(byz, MaxUpdates=2, MaxGap=3, MaxEvents=3, Restart="TRUE", Kinds='{"pc"}') if quick
+                                      else dict(byz, MaxUpdates=2, MaxGap=3, MaxEvents=3, Restart="TRUE"))
         jobs["sim"] = pool.submit(ctx.tlc, "ChattyMC", "Chatty_sim.cfg", timeout=900 if quick else 2400, workers=4,
                                   simulate="num=%d" % (80 if quick else 600), depth=80, extra=["-seed", str(ctx.seed)], defines=byz or None)
         if not quick:
@@ -167,9 +172,14 @@ def run(ctx):
     keys = {}
     for h in ctx.tlc_emitted(r_emit):
         keys.setdefault(json.dumps(h, sort_keys=True), h)
+    n_fresh = len(keys)
+    r_emitrst = jobs["emitrst"].result()
+    for h in ctx.tlc_emitted(r_emitrst):
+        keys.setdefault(json.dumps(h, sort_keys=True), h)
+    ctx.log("export from restart initial states: %d further behaviours, TLC %d states %.0fs" % (len(keys) - n_fresh, r_emitrst["distinct"], r_emitrst["wall"]))
     behs = [{"id": i + 1, "src": "emit", "vals": VALS3, "steps": keys[k]} for i, k in enumerate(sorted(keys))]
     n_emit = len(behs)
-    cap = 20000 if quick else 300000     # quick: seeded sample of the exhaustive set
+    cap = 60000 if quick else 400000     # quick: seeded sample of the exhaustive set
     if n_emit > cap:                       # keep the run bounded: deterministic thinning by seed
         import random
         behs = random.Random(ctx.seed).sample(behs, cap)
